@@ -895,6 +895,16 @@ func (r *RigWD) run() {
 					continue
 				}
 			}
+			if strings.HasPrefix(a.Key, "rel:dlv|") && (strings.Contains(a.Key, ":dropc") || strings.Contains(a.Key, ":dropp") || strings.Contains(a.Key, ":dropdb")) {
+				// bias: a drop that can start while a request of the other stream is waiting at the downstream is preferred
+				// (the window between an operation's readiness check and the execution of its request)
+				for _, c := range s.Parked() {
+					if c.Kind == "ddl" {
+						a.Weight *= 4
+						break
+					}
+				}
+			}
 			filtered = append(filtered, a)
 		}
 		if len(filtered) == 0 {
@@ -1198,6 +1208,38 @@ func (r *RigWD) oracle() {
 		}
 		if concurrentDrop {
 			s.Probe("concurrent_drop_during_operation")
+			// One case is decided all the same: the drop of the very incarnation the operation addresses (stamped at or
+			// after the operation) had been handled completely - its handler had returned successfully, so the drop is
+			// recorded - before the operation's own first downstream request was executed. A request that then fails must
+			// end in a successful skip, not in an error.
+			single := map[string]bool{"createidx": true, "dropidx": true, "alteridx": true, "loadc": true, "releasec": true, "createp": true, "dropp": true}
+			// (requests that name lists of collections / partitions are left out: when one member is dropped concurrently the
+			// pinned code fails the request and handles the members one by one at the re-delivery, which the property does not exclude)
+			if e.IncColl != 0 && single[e.Kind] {
+				firstOwn := -1
+				for i, c := range calls[dl.from:dl.to] {
+					if c.Ev == e && mutKinds[c.Kind] {
+						firstOwn = dl.from + i
+						break
+					}
+				}
+				for _, d2 := range deliv {
+					x := d2.ev
+					if d2 != dl && d2.err == nil && !d2.faulted && x.Kind == "dropc" && x.IncColl == e.IncColl && x.Ts >= e.Ts && firstOwn >= 0 && d2.to <= firstOwn && d2.to > dl.from {
+						what := fmt.Sprintf("%s #%d (%s.%s ts=%d)", e.Kind, e.Seq, dbOf(e.DB), e.Coll, e.Ts)
+						s.Probe("drop_completed_before_request_executed")
+						if dl.err == nil {
+							break
+						}
+						s.Violate("C08", "stale_op_failed", "%s: the drop of its collection (ts=%d) was handled completely while the operation was in flight and before its downstream request was executed; the request failed and the operation must be skipped successfully, but it failed: %v", what, x.Ts, dl.err)
+						mdb, mcoll := refMap(r.sc.Mapping, e.DB, e.Coll)
+						if mdb != dbOf(e.DB) || mcoll != e.Coll {
+							s.Violate("C09", "stale_op_under_mapping", "%s (mapped to %s.%s): the drop of its collection had been recorded (under the SOURCE names) before its downstream request failed; it must be skipped but failed (%v)", what, mdb, mcoll, dl.err)
+						}
+						break
+					}
+				}
+			}
 			continue
 		}
 		replayed := seenOK[e.Seq]
